@@ -5,7 +5,7 @@ use std::sync::Mutex;
 use proptest::prelude::*;
 use pvkit::cborx::{self, hexser};
 use pvkit::mutate::{self, MutOp};
-use pvkit::{fnv64, pick_idx, pv_fail, Fail, Obs, Session};
+use pvkit::{fnv64, pick_idx, Fail, Obs, Session};
 use serde::{Deserialize, Serialize};
 
 use crate::seeds::{self, pool};
@@ -403,75 +403,84 @@ pub struct Probe {
 pub const NEST_KINDS: [&str; 8] = ["array", "array-indef", "map", "map-key", "tag", "constr", "native-script", "bytes-indef"];
 pub const LEN_KINDS: [&str; 4] = ["len-array", "len-map", "len-bytes", "len-text"];
 
-fn nest(kind: &str, n: usize) -> Option<Vec<u8>> {
+/// Run-length form of an input: (unit, repetitions) segments. Deep probes are megabytes of a
+/// repeated unit; this form is what is handed to the child process.
+pub type Segs = Vec<(Vec<u8>, usize)>;
+
+pub fn segs_len(s: &Segs) -> usize {
+    s.iter().map(|(u, n)| u.len() * n).sum()
+}
+
+#[allow(dead_code)]
+pub fn segs_bytes(s: &Segs) -> Vec<u8> {
+    let mut out = Vec::with_capacity(segs_len(s));
+    for (u, n) in s {
+        for _ in 0..*n {
+            out.extend_from_slice(u);
+        }
+    }
+    out
+}
+
+fn segs_text(s: &Segs) -> String {
+    let mut out = String::new();
+    for (u, n) in s {
+        if u.is_empty() || *n == 0 {
+            continue;
+        }
+        out.push(' ');
+        out.push_str(&hex::encode(u));
+        if *n != 1 {
+            out.push_str(&format!("*{n}"));
+        }
+    }
+    out
+}
+
+fn parse_segs(txt: &str) -> Vec<u8> {
+    let mut out = vec![];
+    for tok in txt.split_whitespace() {
+        let (hx, n) = match tok.split_once('*') {
+            Some((h, n)) => (h, n.parse::<usize>().expect("repeat count")),
+            None => (tok, 1),
+        };
+        let unit = hex::decode(hx).expect("segment hex");
+        for _ in 0..n {
+            out.extend_from_slice(&unit);
+        }
+    }
+    out
+}
+
+fn one(b: &[u8]) -> (Vec<u8>, usize) {
+    (b.to_vec(), 1)
+}
+
+fn nest(kind: &str, n: usize) -> Option<Segs> {
     Some(match kind {
-        "array" => {
-            let mut v = vec![0x81u8; n];
-            v.push(0x00);
-            v
-        }
-        "array-indef" => {
-            let mut v = vec![0x9fu8; n];
-            v.push(0x00);
-            v.extend(std::iter::repeat(0xff).take(n));
-            v
-        }
-        "map" => {
-            // {0: {0: ... 0}}
-            let mut v = Vec::with_capacity(2 * n + 1);
-            for _ in 0..n {
-                v.extend([0xa1, 0x00]);
-            }
-            v.push(0x00);
-            v
-        }
-        "map-key" => {
-            // {{{...0: 0}: 0}: 0}
-            let mut v = vec![0xa1u8; n];
-            v.push(0x00);
-            v.extend(std::iter::repeat(0x00).take(n));
-            v
-        }
-        "tag" => {
-            let mut v = vec![0xc2u8; n];
-            v.push(0x40);
-            v
-        }
-        "constr" => {
-            // plutus-data shaped: 121([121([ ... 0 ])])
-            let mut v = Vec::with_capacity(3 * n + 1);
-            for _ in 0..n {
-                v.extend([0xd8, 0x79, 0x81]);
-            }
-            v.push(0x00);
-            v
-        }
-        "native-script" => {
-            // all-of [ all-of [ ... all-of [] ] ]
-            let mut v = Vec::with_capacity(3 * n + 3);
-            for _ in 0..n {
-                v.extend([0x82, 0x01, 0x81]);
-            }
-            v.extend([0x82, 0x01, 0x80]);
-            v
-        }
-        "bytes-indef" => {
-            // nested indefinite byte strings are malformed; a decoder must say so without recursing
-            let mut v = vec![0x5fu8; n];
-            v.push(0x40);
-            v.extend(std::iter::repeat(0xff).take(n));
-            v
-        }
-        "len-array" => head_with(4, 1u64 << n.min(63)),
-        "len-map" => head_with(5, 1u64 << n.min(63)),
-        "len-bytes" => head_with(2, 1u64 << n.min(63)),
-        "len-text" => head_with(3, 1u64 << n.min(63)),
+        "array" => vec![(vec![0x81], n), one(&[0x00])],
+        "array-indef" => vec![(vec![0x9f], n), one(&[0x00]), (vec![0xff], n)],
+        // {0: {0: ... 0}}
+        "map" => vec![(vec![0xa1, 0x00], n), one(&[0x00])],
+        // {{{...0: 0}: 0}: 0}
+        "map-key" => vec![(vec![0xa1], n), one(&[0x00]), (vec![0x00], n)],
+        "tag" => vec![(vec![0xc2], n), one(&[0x40])],
+        // plutus-data shaped: 121([121([ ... 0 ])])
+        "constr" => vec![(vec![0xd8, 0x79, 0x81], n), one(&[0x00])],
+        // all-of [ all-of [ ... all-of [] ] ]
+        "native-script" => vec![(vec![0x82, 0x01, 0x81], n), one(&[0x82, 0x01, 0x80])],
+        // nested indefinite byte strings are malformed; a decoder must say so without recursing
+        "bytes-indef" => vec![(vec![0x5f], n), one(&[0x40]), (vec![0xff], n)],
+        "len-array" => vec![one(&head_with(4, 1u64 << n.min(63)))],
+        "len-map" => vec![one(&head_with(5, 1u64 << n.min(63)))],
+        "len-bytes" => vec![one(&head_with(2, 1u64 << n.min(63)))],
+        "len-text" => vec![one(&head_with(3, 1u64 << n.min(63)))],
         _ => return None,
     })
 }
 
-/// hand-built hosts: the smallest transaction / output / message around a position where a
-/// recursive type is decoded. (name, which entry points it is meant for)
+/// hand-built hosts: the smallest transaction / output / block around a position where a recursive
+/// type is decoded
 pub const TEMPLATES: [&str; 9] = [
     "tx-plutus-data",
     "tx-redeemer-data",
@@ -500,30 +509,35 @@ fn bytes_head(n: usize) -> Vec<u8> {
     out
 }
 
-pub fn template(name: &str, probe: &[u8]) -> Option<Vec<u8>> {
+pub fn template(name: &str, probe: Segs) -> Option<Segs> {
     // {0: [], 1: [], 2: 0}
     let body: &[u8] = &[0xa3, 0x00, 0x80, 0x01, 0x80, 0x02, 0x00];
-    let cat = |parts: &[&[u8]]| parts.concat();
     let addr: Vec<u8> = {
         let mut a = vec![0x58, 29, 0x61];
         a.extend([7u8; 28]);
         a
     };
+    let plen = segs_len(&probe);
+    let wrap = |pre: Vec<u8>, post: Vec<u8>| -> Segs {
+        let mut v = vec![(pre, 1)];
+        v.extend(probe.clone());
+        v.push((post, 1));
+        v
+    };
     Some(match name {
-        "tx-plutus-data" => cat(&[&[0x84], body, &[0xa1, 0x04, 0x81], probe, &[0xf5, 0xf6]]),
-        "tx-redeemer-data" => cat(&[&[0x84], body, &[0xa1, 0x05, 0x81, 0x84, 0x00, 0x00], probe, &[0x82, 0x00, 0x00, 0xf5, 0xf6]]),
-        "tx-metadata" => cat(&[&[0x84], body, &[0xa0, 0xf5, 0xa1, 0x00], probe]),
-        "tx-metadata-shelley" => cat(&[&[0x83], body, &[0xa0, 0xa1, 0x00], probe]),
-        "tx-native-script" => cat(&[&[0x84], body, &[0xa1, 0x01, 0x81], probe, &[0xf5, 0xf6]]),
-        "tx-aux-native-script" => cat(&[&[0x84], body, &[0xa0, 0xf5, 0x82, 0xa0, 0x81], probe]),
+        "tx-plutus-data" => wrap([&[0x84], body, &[0xa1, 0x04, 0x81]].concat(), vec![0xf5, 0xf6]),
+        "tx-redeemer-data" => wrap([&[0x84], body, &[0xa1, 0x05, 0x81, 0x84, 0x00, 0x00]].concat(), vec![0x82, 0x00, 0x00, 0xf5, 0xf6]),
+        "tx-metadata" => wrap([&[0x84], body, &[0xa0, 0xf5, 0xa1, 0x00]].concat(), vec![]),
+        "tx-metadata-shelley" => wrap([&[0x83], body, &[0xa0, 0xa1, 0x00]].concat(), vec![]),
+        "tx-native-script" => wrap([&[0x84], body, &[0xa1, 0x01, 0x81]].concat(), vec![0xf5, 0xf6]),
+        "tx-aux-native-script" => wrap([&[0x84], body, &[0xa0, 0xf5, 0x82, 0xa0, 0x81]].concat(), vec![]),
+        // {0: addr, 1: 0, 2: [1, 24(h'<probe>')]}
         "output-inline-datum" => {
-            // {0: addr, 1: 0, 2: [1, 24(h'<probe>')]}
-            cat(&[&[0xa3, 0x00], &addr, &[0x01, 0x00, 0x02, 0x82, 0x01, 0xd8, 0x18], &bytes_head(probe.len()), probe])
+            wrap([&[0xa3, 0x00], &addr[..], &[0x01, 0x00, 0x02, 0x82, 0x01, 0xd8, 0x18], &bytes_head(plen)[..]].concat(), vec![])
         }
+        // {0: addr, 1: 0, 3: 24(h'[0, <probe>]')}
         "output-script-ref" => {
-            // {0: addr, 1: 0, 3: 24(h'[0, <probe>]')}
-            let inner = cat(&[&[0x82, 0x00], probe]);
-            cat(&[&[0xa3, 0x00], &addr, &[0x01, 0x00, 0x03, 0xd8, 0x18], &bytes_head(inner.len()), &inner])
+            wrap([&[0xa3, 0x00], &addr[..], &[0x01, 0x00, 0x03, 0xd8, 0x18], &bytes_head(plen + 2)[..], &[0x82, 0x00]].concat(), vec![])
         }
         "block-babbage-plutus-data" => {
             // a real babbage block with the first witness set replaced by {4: [probe]}
@@ -531,33 +545,37 @@ pub fn template(name: &str, probe: &[u8]) -> Option<Vec<u8>> {
             let tree = s.tree()?;
             let inner = tree.as_array()?.get(1)?.as_array()?;
             let ws = inner.get(2)?.as_array()?.first()?;
-            cat(&[&s.bytes[..ws.s], &[0xa1, 0x04, 0x81], probe, &s.bytes[ws.e..]])
+            wrap([&s.bytes[..ws.s], &[0xa1, 0x04, 0x81]].concat(), s.bytes[ws.e..].to_vec())
         }
         _ => return None,
     })
 }
 
-pub fn probe_bytes(p: &Probe) -> Option<Vec<u8>> {
+pub fn probe_segs(p: &Probe) -> Option<Segs> {
     let body = nest(&p.kind, p.n as usize)?;
     if p.host.is_empty() {
         return Some(body);
     }
     if let Some(name) = p.host.strip_prefix("tpl:") {
-        return template(name, &body);
+        return template(name, body);
     }
     let s = pool().get(&p.host)?;
     let tree = s.tree()?;
     let mut nodes = vec![];
     collect(tree, &mut nodes);
     let node = nodes[pick_idx(p.slot, nodes.len())];
-    let mut out = s.bytes[..node.0].to_vec();
-    out.extend_from_slice(&body);
+    let mut out: Segs = vec![one(&s.bytes[..node.0])];
+    out.extend(body);
     if p.kind.starts_with("len-") {
         // the displaced node follows as plausible content behind the lying head
-        out.extend_from_slice(&s.bytes[node.0..node.1]);
+        out.push(one(&s.bytes[node.0..node.1]));
     }
-    out.extend_from_slice(&s.bytes[node.1..]);
+    out.push(one(&s.bytes[node.1..]));
     Some(out)
+}
+
+pub fn probe_bytes(p: &Probe) -> Option<Vec<u8>> {
+    probe_segs(p).map(|s| segs_bytes(&s))
 }
 
 fn collect(n: &cborx::Node, out: &mut Vec<(usize, usize)>) {
@@ -583,7 +601,7 @@ fn head_with(major: u8, v: u64) -> Vec<u8> {
 
 /// Entry of the child process. `PV_DECODE_PROBE=<target index>:<hex file>` decodes one input (exit
 /// 0 = returned, 3 = panicked, signature on stdout). `PV_DECODE_PROBE=batch:<list file>` decodes a
-/// list (`<target index> <hex>` per line) and reports `B <i>` before and `E <i> <verdict>` after each
+/// list (`<target index> <segment> ...` per line, segment = `<hex>` or `<hex>*<repetitions>`) and reports `B <i>` before and `E <i> <verdict>` after each
 /// item, so the parent knows which item killed the process.
 pub fn probe_child(spec: &str) -> ! {
     use std::io::Write;
@@ -594,9 +612,9 @@ pub fn probe_child(spec: &str) -> ! {
     if idx == "batch" {
         let out = std::io::stdout();
         for (i, line) in txt.lines().enumerate() {
-            let Some((t, hx)) = line.split_once(' ') else { continue };
+            let Some((t, segs)) = line.split_once(' ') else { continue };
             let t = all[t.parse::<usize>().expect("target index")];
-            let bytes = hex::decode(hx.trim()).expect("probe hex");
+            let bytes = parse_segs(segs);
             {
                 let mut o = out.lock();
                 let _ = writeln!(o, "B {i}");
@@ -657,7 +675,7 @@ enum ProbeResult {
 }
 
 /// Run the probes in child processes (one child per batch, restarted behind an item that killed it).
-fn run_isolated(items: &[(Target, Vec<u8>)]) -> Vec<ProbeResult> {
+fn run_isolated(items: &[(Target, Segs)]) -> Vec<ProbeResult> {
     use std::os::unix::process::ExitStatusExt;
     let all = Target::all();
     let mut results: Vec<ProbeResult> = vec![];
@@ -675,9 +693,9 @@ fn run_isolated(items: &[(Target, Vec<u8>)]) -> Vec<ProbeResult> {
         let mut key = vec![];
         for (t, b) in &items[start..] {
             let idx = all.iter().position(|x| x == t).unwrap_or(0);
-            list.push_str(&format!("{idx} {}\n", hex::encode(b)));
-            key.extend_from_slice(&(b.len() as u64).to_le_bytes());
-            key.extend_from_slice(&b[..b.len().min(64)]);
+            let line = segs_text(b);
+            key.extend_from_slice(line.as_bytes());
+            list.push_str(&format!("{idx}{line}\n"));
         }
         let file = dir.join(format!("{:016x}-{start}-{:?}.list", fnv64(&key), std::thread::current().id()));
         if let Err(e) = std::fs::write(&file, list) {
@@ -740,7 +758,7 @@ fn check_probe_batch<'a>(s: &'a Session) -> impl Fn(&ProbeBatch, &mut Obs) -> Re
         let mut items = vec![];
         let mut meta = vec![];
         for p in &batch.probes {
-            if let Some(b) = probe_bytes(p) {
+            if let Some(b) = probe_segs(p) {
                 items.push((p.target, b));
                 meta.push(p);
             }
@@ -752,19 +770,20 @@ fn check_probe_batch<'a>(s: &'a Session) -> impl Fn(&ProbeBatch, &mut Obs) -> Re
         let results = run_isolated(&items);
         let mut first: Option<Fail> = None;
         let mut key = vec![];
-        for ((p, (_, bytes)), r) in meta.iter().zip(items.iter()).zip(results.iter()) {
+        for ((p, (_, segs)), r) in meta.iter().zip(items.iter()).zip(results.iter()) {
+            let nbytes = segs_len(segs);
             obs.class(format!("probe:{}", p.kind));
             obs.class(format!("probe-group:{}", p.target.group()));
             let family = if p.kind.starts_with("len-") { "huge-length" } else { "deep-nesting" };
             let fail = match r {
                 ProbeResult::Returned(ok) => {
                     obs.class(format!("probe-verdict:{}", if *ok { "ok" } else { "err" }));
-                    key.extend_from_slice(&fnv64(bytes).to_le_bytes());
+                    key.extend_from_slice(&fnv64(format!("{}{}", p.target.name(), segs_text(segs)).as_bytes()).to_le_bytes());
                     None
                 }
                 ProbeResult::Panicked(sig) => Some(Fail {
                     sig: sig.clone(),
-                    msg: format!("{} panics on a {family} probe: kind={} n={} host='{}' slot {} ({} bytes)", p.target.name(), p.kind, p.n, p.host, p.slot, bytes.len()),
+                    msg: format!("{} panics on a {family} probe: kind={} n={} host='{}' slot {} ({} bytes)", p.target.name(), p.kind, p.n, p.host, p.slot, nbytes),
                 }),
                 ProbeResult::Died(signal) => {
                     let what = if family == "deep-nesting" { "stack-overflow" } else { "alloc-abort" };
@@ -773,8 +792,8 @@ fn check_probe_batch<'a>(s: &'a Session) -> impl Fn(&ProbeBatch, &mut Obs) -> Re
                     Some(Fail {
                         sig,
                         msg: format!(
-                            "{} kills the process (signal {signal}) on a {family} probe: kind={} n={} host='{}' slot {} ({} bytes); first bytes {}",
-                            p.target.name(), p.kind, p.n, p.host, p.slot, bytes.len(), hex::encode(&bytes[..bytes.len().min(48)])
+                            "{} kills the process (signal {signal}) on a {family} probe: kind={} n={} host='{}' slot {} ({} bytes); input ={}",
+                            p.target.name(), p.kind, p.n, p.host, p.slot, nbytes, { let t = segs_text(segs); if t.len() > 300 { format!("{}…", &t[..300]) } else { t } }
                         ),
                     })
                 }
@@ -948,21 +967,7 @@ pub fn run(s: &Session) {
     if std::env::var("PV_DECODE_SKIP_PROBES").is_err() {
         // batches: probes of one kind and depth together, so that a replayed batch is small
         probes.sort_by(|a, b| (a.kind.as_str(), a.n).cmp(&(b.kind.as_str(), b.n)));
-        let mut batches: Vec<ProbeBatch> = vec![];
-        let (mut cur, mut cur_bytes) = (vec![], 0usize);
-        for pr in probes {
-            // size estimate without building the input: nesting unit <= 3 bytes per level
-            let est = if pr.kind.starts_with("len-") { 64 } else { pr.n as usize * 3 } + 20_000;
-            if !cur.is_empty() && (cur.len() >= 64 || cur_bytes + est > 6_000_000) {
-                batches.push(ProbeBatch { probes: std::mem::take(&mut cur) });
-                cur_bytes = 0;
-            }
-            cur_bytes += est;
-            cur.push(pr);
-        }
-        if !cur.is_empty() {
-            batches.push(ProbeBatch { probes: cur });
-        }
+        let batches: Vec<ProbeBatch> = probes.chunks(64).map(|c| ProbeBatch { probes: c.to_vec() }).collect();
         s.note("isolated_probes", serde_json::json!(batches.iter().map(|b| b.probes.len()).sum::<usize>()));
         s.foreach("isolated-probes", batches, false, check_probe_batch(s));
         let _ = std::fs::remove_dir_all(std::env::temp_dir().join(format!("pv-decode-probes-{}", std::process::id())));
